@@ -85,11 +85,12 @@ def main(argv=None):
     for k in unit_keys:
         fs = [f for f in findings if f.get("unit") == k]
         whens = [f["when"] for f in fs if f.get("when")]
-        jobs.append({"unit_key": k, "sidecar_modules": mods, "tier": a.tier, "pass_name": "main", "assume_not": whens, "assume": None, "only_prop": prop})
+        tol = [p for f in fs if not f.get("when") for p in f.get("obligations", [])]
+        jobs.append({"unit_key": k, "sidecar_modules": mods, "tier": a.tier, "pass_name": "main", "assume_not": whens, "assume": None, "only_prop": prop, "tolerate": tol})
         for f in fs:
             if f.get("when"):
                 jobs.append({"unit_key": k, "sidecar_modules": mods, "tier": a.tier, "pass_name": "finding:" + f["id"],
-                             "assume_not": [], "assume": f["when"], "only_prop": prop})
+                             "assume_not": [], "assume": f["when"], "only_prop": prop, "tolerate": list(f.get("obligations", []))})
     for k in lemma_keys:
         jobs.append({"unit_key": k, "sidecar_modules": mods, "tier": a.tier, "pass_name": "main", "assume_not": [], "assume": None})
     reports = []
@@ -114,6 +115,13 @@ def main(argv=None):
         except Exception:
             extras.append({"name": getattr(fn, "__name__", "extra"), "status": "crash", "detail": traceback.format_exc()[-1500:]})
 
+    # baseline ledger (committed): obligation status and source hash of every unit on the pinned/repaired tree
+    bl_path = os.path.join(ROOT, "baseline_obligations.json")
+    baseline = json.load(open(bl_path)) if os.path.exists(bl_path) else {}
+    bl_prop = baseline.get(prop, {})
+    bl_obl = bl_prop.get("obligations", {})
+    bl_sha = bl_prop.get("unit_sha", {})
+
     # ------------------------------------------------------------------ verdict
     violations = []  # (obligation name, unit, instances, pass)
     undecided = []
@@ -131,6 +139,9 @@ def main(argv=None):
         if rep["error"]:
             (undecided if rep["error"]["kind"] == "unsupported" else crashes).append((rep["unit"], rep["pass_name"], rep["error"]))
             continue
+        for cv in rep.get("covers", []):
+            if cv.get("result") == "unsat" and rep["pass_name"] == "main":
+                crashes.append((rep["unit"], rep["pass_name"], {"kind": "vacuous", "msg": "precondition of %s is unsatisfiable (vacuous contract)" % rep["unit"]}))
         g = group_by_name(rep["obligations"])
         fid = rep["pass_name"][8:] if rep["pass_name"].startswith("finding:") else None
         f = next((x for x in findings if x["id"] == fid), None) if fid else None
@@ -159,7 +170,16 @@ def main(argv=None):
             elif st == "refuted":
                 violations.append((name, rep["unit"], [i for i in insts if i["status"] == "refuted"], rep["pass_name"], rep.get("src")))
             else:
-                undecided.append((rep["unit"], rep["pass_name"], {"kind": st, "msg": name + " " + "; ".join(i.get("reason", "") for i in insts if i["status"] != "discharged")[:300]}))
+                cur_sha = (rep.get("src") or {}).get("sha256")
+                changed = cur_sha is not None and bl_sha.get(rep["unit"]) not in (None, cur_sha)
+                if changed and bl_obl.get(rep["pass_name"] + "|" + name) == "discharged":
+                    # the obligation was discharged for the committed baseline source of this function and can no longer be
+                    # discharged after the function changed: reported as a violation without a failing input
+                    for i in insts:
+                        i["note"] = (i.get("note") or "") + " [discharged on the baseline source %s, not dischargeable on the changed source %s]" % (bl_sha.get(rep["unit"], "?")[:12], cur_sha[:12])
+                    violations.append((name, rep["unit"], [i for i in insts if i["status"] != "discharged"], rep["pass_name"], rep.get("src")))
+                else:
+                    undecided.append((rep["unit"], rep["pass_name"], {"kind": st, "msg": name + " " + "; ".join(i.get("reason", "") for i in insts if i["status"] != "discharged")[:300]}))
     # known findings: report while the witness still fails
     for f in findings:
         still = idx.finding_still_fails(f, reports)
@@ -237,15 +257,15 @@ def main(argv=None):
     with open(os.path.join(ROOT, "evidence", "%s.json" % prop), "w") as fh:
         json.dump(ev, fh, indent=1, default=str)
     if a.write_baseline:
-        bl_path = os.path.join(ROOT, "baseline_obligations.json")
         bl = json.load(open(bl_path)) if os.path.exists(bl_path) else {}
-        names = {}
+        names, shas = {}, {}
         for rep in reports:
-            if rep["pass_name"] != "main":
-                continue
+            if rep.get("src") and rep["src"].get("sha256"):
+                shas[rep["unit"]] = rep["src"]["sha256"]
             for name, insts in group_by_name(rep["obligations"]).items():
-                names[name] = agg_status(insts)
-        bl[prop] = names
+                if insts[0]["kind"] != "canary":
+                    names[rep["pass_name"] + "|" + name] = agg_status(insts)
+        bl[prop] = {"obligations": names, "unit_sha": shas}
         json.dump(bl, open(bl_path, "w"), indent=1, sort_keys=True)
     print("%s: %d/%d obligations discharged, %d units, %d known findings, %d violations, %d undecided, %.1fs" % (
         prop, n_dis, n_obl, len(unit_keys) + len(lemma_keys), len(known_lines), len(violations), len(undecided), wall))
